@@ -16,8 +16,8 @@ def bounded(tier, seed, fallback_for):
 
 MANIFEST = {
     "category": "exploration",
-    "technique": "bounded stand-in: the statement evaluated on generated program texts through the real lexers and pipeline (contract-based proof of the pipeline functions where listed in evidence)",
-    "text": 'Exact discovery, span and length are checked on every program of a canonical-program generator whose expected measurements are computed from the derivation (bounded stand-in). The span and length *clauses* are additionally contracts on scan_file/count_lines (see C05).',
-    "note": 'bounded: program texts go through seven Pygments lexers and a grammar induction that no contract in reach can express; five recorded findings (D5, D6, D8, D19, D21) are listed in known_findings.json',
+    "technique": "contracts on the real pipeline functions discharged by z3/cvc5 (pyvc); bounded stand-in on generated program texts through the real lexers for the whole statement",
+    "text": 'The statement is decided on canonical programs (bounded): a generator derives every function together with its expected name, span and length from the derivation (7 languages, incl. terse single-token lines and 3-level nests) and the real pipeline must report exactly that. Under contract and discharged for all inputs: scan_file (span starts at the header, name is the header name, span ends exactly just past the last block token, one count_lines call per scope on code tokens) and get_blocks.',
+    "note": 'bounded for discovery and length (they go through Pygments and the pattern engine); build_scopes and count_lines are assumed summaries; five recorded findings (D5, D6, D8, D19, D21) are matched by input tag and role of the failing function',
     "design_ref": "DESIGN.md §6 C01",
 }
